@@ -164,6 +164,30 @@ func constOf(v ssa.Value) (constant.Value, bool) {
 }
 
 func constString(v ssa.Value) (string, bool) {
+	// string([]rune{c1, c2, …}) built in place from constants
+	if cv, ok := v.(*ssa.Convert); ok && isStringish(cv.Type()) {
+		if _, isSlice := cv.X.Type().Underlying().(*types.Slice); isSlice {
+			elems, ok := variadicArgs(cv.X)
+			if !ok {
+				return "", false
+			}
+			var rs []rune
+			for _, e := range elems {
+				k, ok := constInt(e)
+				if !ok {
+					return "", false
+				}
+				rs = append(rs, rune(k))
+			}
+			return string(rs), true
+		}
+		if b, ok := cv.X.Type().Underlying().(*types.Basic); ok && b.Info()&types.IsInteger != 0 {
+			if k, ok := constInt(cv.X); ok {
+				return string(rune(k)), true
+			}
+			return "", false
+		}
+	}
 	// a constant, possibly converted
 	for {
 		switch x := v.(type) {
@@ -356,7 +380,67 @@ func termStr(t Term) string {
 	return s
 }
 
+// indexCmp recognises strings.Index*(term, const) compared with -1 / 0.
+func (s *Summarizer) indexCmp(x *ssa.BinOp, env termEnv) *Form {
+	call, ok := x.X.(*ssa.Call)
+	if !ok {
+		return nil
+	}
+	f := staticCallee(call.Common())
+	if f == nil {
+		return nil
+	}
+	name := fnName(f)
+	var a *LAtom
+	switch name {
+	case "strings.IndexAny", "strings.Index", "strings.IndexByte", "strings.IndexRune", "strings.LastIndex", "strings.LastIndexAny", "strings.LastIndexByte":
+	default:
+		return nil
+	}
+	t, ok := s.termOf(call.Common().Args[0], env)
+	if !ok {
+		return fUnknown(name + " on unresolved term")
+	}
+	switch name {
+	case "strings.IndexAny", "strings.LastIndexAny":
+		k, ok := constString(call.Common().Args[1])
+		if !ok {
+			return fUnknown(name + " with non-constant set")
+		}
+		a = &LAtom{Kind: "containsAny", Set: relang.SetOfString(k), Term: t, Desc: fmt.Sprintf("ContainsAny(%s,%q)", termStr(t), k)}
+	case "strings.Index", "strings.LastIndex":
+		k, ok := constString(call.Common().Args[1])
+		if !ok {
+			return fUnknown(name + " with non-constant substring")
+		}
+		a = &LAtom{Kind: "contains", Str: k, Term: t, Desc: fmt.Sprintf("Contains(%s,%q)", termStr(t), k)}
+	default:
+		k, ok := constInt(call.Common().Args[1])
+		if !ok {
+			return fUnknown(name + " with non-constant byte")
+		}
+		if name != "strings.IndexRune" && k >= 0x80 {
+			return fUnknown(name + " with a non-ASCII byte")
+		}
+		a = &LAtom{Kind: "containsAny", Set: relang.SetOfRunes(rune(k)), Term: t, Desc: fmt.Sprintf("ContainsRune(%s,%q)", termStr(t), rune(k))}
+	}
+	k, ok := constInt(x.Y)
+	if !ok {
+		return fUnknown("index compared with non-constant")
+	}
+	switch {
+	case x.Op == token.NEQ && k == -1, x.Op == token.GEQ && k == 0, x.Op == token.GTR && k == -1:
+		return atom(a)
+	case x.Op == token.EQL && k == -1, x.Op == token.LSS && k == 0, x.Op == token.LEQ && k == -1:
+		return fNot(atom(a))
+	}
+	return fUnknown("index comparison " + x.String())
+}
+
 func (s *Summarizer) binopForm(x *ssa.BinOp, env termEnv) *Form {
+	if f := s.indexCmp(x, env); f != nil {
+		return f
+	}
 	neg := false
 	switch x.Op {
 	case token.EQL:
